@@ -428,7 +428,7 @@ def fault_consts(scenarios, maxk, kinds, corruptions):
 
 
 PLANS["C07"] = {
-    "clauses": ["C07_TwoOutcomes", "C07_NextWorks"],
+    "clauses": ["C07_TwoOutcomes", "C07_NextWorks"], "level": "fault_enumeration",
     "module": "Proxy.tla", "const_keys": ["Scenario", "MaxK", "Kinds", "Corruptions", "Mode"],
     "executor": _fault.execute_fault, "tagger": _fault_tags, "end_event": {"ev": "reset", "run": "end"},
     "quick": [
@@ -449,3 +449,49 @@ def _core(pid, tier, seed):
 
 
 CHECKS = {pid: _core for pid in PLANS}
+
+
+# ------------------------------------------------------------------------------------------------ C17 note format
+from . import fnprops as _fn  # noqa: E402
+from .tlc import Seq as _Seq  # noqa: E402
+
+NOTE_ALPHA = ["a", "s", "t", "n", "r", "q", "d", "u", "w", "b"]
+NOTE_HASHES = ["a", "aa", "u", "da", "aq"]
+NOTE_TEXT = ["path", "qpath", "lonequote", "entry", "entry_nosp", "entry_bad", "divider", "divider_sp", "blank",
+             "json", "garbage"]
+NOTE_DEV = []
+
+
+def note_consts(maxpath, maxtext, dev=NOTE_DEV):
+    return {"Alphabet": NOTE_ALPHA, "MaxPath": maxpath, "HashSet": NOTE_HASHES, "TextLines": NOTE_TEXT,
+            "MaxText": maxtext, "Dev": list(dev), "Mode": "gen"}
+
+
+PLANS["C17"] = {
+    "clauses": ["C17_NoPanic", "C17_RoundTrip", "C17_Grammar", "C17_Remap", "C17_RejectsNoDivider"],
+    "module": "NoteFormat.tla", "const_keys": ["Alphabet", "MaxPath", "HashSet", "TextLines", "MaxText", "Dev", "Mode"],
+    "executor": _fn.execute_note, "tagger": _fn.note_tags, "end_event": {"ev": "reset", "run": "end"},
+    "prebuild": _fn.build_gaifn, "chunk": 3000, "level": "model_checking",
+    "expect_actions": {"any": ["Log", "Text"]},
+    "rule": "every case TLC enumerates (a log over the abstract character alphabet, or a sequence of line kinds) is "
+            "concretised with a seeded choice of real characters per abstract character and driven through the real "
+            "serializer, parser and base-commit remapper in-process; distinct_nontrivial counts distinct abstract cases",
+    "assumptions": [
+        "TLC 1.8 and the CommunityModules evaluate spec/NoteFormat.tla correctly",
+        "the abstract alphabet (ordinary, space, tab, newline, CR, quote, dash, non-ASCII letter, non-ASCII white "
+        "space, a run containing the base_commit_sha field text) covers the characters the format gives meaning to",
+        "hashes are non-empty and free of white space, every entry has at least one range and every file at least "
+        "one entry (the standard excludes the rest)",
+    ],
+    "quick": [
+        dict(name="format", consts=note_consts(2, 3), invariants=["G_NoPanic", "G_RoundTrip", "G_Grammar", "G_Remap",
+                                                                  "G_Rejects"],
+             budget=100000, variants=[("-", "-")], per_tag=1),
+    ],
+    "thorough": [
+        dict(name="format", consts=note_consts(4, 4), invariants=["G_NoPanic", "G_RoundTrip", "G_Grammar", "G_Remap",
+                                                                  "G_Rejects"],
+             budget=400000, variants=[("-", "-")], per_tag=1, timeout=3000),
+    ],
+}
+CHECKS["C17"] = _core
